@@ -1,3 +1,50 @@
-From Verif Require Import Base Link.
-Theorem placeholder : True. Proof. exact I. Qed.
-Print Assumptions placeholder.
+(* C16 — Link blocks while healthy and returns the first fatal error when it ends.
+   Model: Link.v (one endpoint, all schedules, all environment behaviours incl. faults,
+   cancellations, garbage frames).  Only statements; proofs in LinkInv16.v. *)
+From Verif Require Import Base Link LinkProofs LinkInv16.
+
+(* Whatever Link returns is the error of the FIRST report (the first setErr whose store reached
+   the slot) — never a later, consequential one, and never while no error has been reported:
+   [first_report] is [None] on a healthy link, so a return implies a report. *)
+Theorem link_returns_first :
+  forall calls s e,
+    lreachable fixed calls s -> In (EvLinkReturn e) (evs s) -> first_report (evs s) = Some e.
+Proof. exact link_returns_first_lemma. Qed.
+Print Assumptions link_returns_first.
+
+(* Once an error has been reported Link is never left waiting: it is not blocked on the condition
+   variable, and if it has not yet read the slot its own next step makes it return that first
+   error — no step of any handler, reader, peer or transport is needed. *)
+Theorem link_return_needs_nobody :
+  forall calls s e,
+    lreachable fixed calls s -> first_report (evs s) = Some e ->
+    tget (threads s) TLink <> Some LWaiting /\
+    (forall e', tget (threads s) TLink = Some (LReturn e') -> e' = e) /\
+    (tget (threads s) TLink = Some LBeforeRead ->
+     exists s', lstep fixed calls s (Run TLink) 0 = Some s' /\ tget (threads s') TLink = Some (LReturn e)).
+Proof. exact link_not_blocked_once_ended_lemma. Qed.
+Print Assumptions link_return_needs_nobody.
+
+(* The tree as found (setErr overwrites the slot) returns a later error: two reader failures are
+   reported before Link reads.  Replayed on the real code by corpus/ep/d4-*.json. *)
+Theorem D4_refuted :
+  exists calls cs s e1 e2,
+    lrun legacy calls linit cs = Some s /\ first_report (evs s) = Some e1 /\
+    In (EvLinkReturn e2) (evs s) /\ e1 <> e2.
+Proof.
+  exists [], [(Run TSetup, 0); (Env (EFailReadRes 1%N), 0); (Run TResLoop, 0);
+              (Env (EFailReadReq 2%N), 0); (Run TReqLoop, 0); (Run TLink, 0); (Run TLink, 0)].
+  eexists. exists (EInj 1%N), (EInj 2%N).
+  split; [vm_compute; reflexivity|]. split; [reflexivity|]. split; [simpl; auto|discriminate].
+Qed.
+Print Assumptions D4_refuted.
+
+(* Non-vacuity: a reachable state in which Link has returned. *)
+Example link_return_reachable :
+  exists s, lreachable fixed [] s /\ In (EvLinkReturn (ECtx 0%N)) (evs s).
+Proof.
+  eexists. split.
+  - exists [(Run TLink, 0); (Env (ECancel 0%N), 0); (Run TWatcher, 0); (Run TWatcher, 0); (Run TLink, 0)].
+    vm_compute. reflexivity.
+  - simpl. auto.
+Qed.
